@@ -2397,3 +2397,127 @@ func ruleRoKinds(c *Ctx) []Obligation {
 	}
 	return []Obligation{bad(R, con, c.Pos(ro.Pos()), "the kind "+joinStrings(dedupe(wrong), ", ")+" ends the ascent with a constant answer: what an ancestor says about config (`config false` on the container around an action or a notification) is not inherited below it")}
 }
+
+// ---------------------------------------------------------------- POS.CONCATFIRST (seed C16-w12-2)
+
+func init() {
+	register(&Rule{Name: "POS.CONCATFIRST", Props: []string{"C16", "C02"}, Floor: 1,
+		Doc: "the token the parser hands on for a concatenation of strings is the first part (with the joined text): its position is where the argument starts, not where its last part does",
+		Run: rulePosConcatFirst})
+}
+
+func rulePosConcatFirst(c *Ctx) []Obligation {
+	const R = "POS.CONCATFIRST"
+	m, why := c.lexModel()
+	if m == nil {
+		return []Obligation{undecided(R, "lexer model", "-", why)}
+	}
+	fn := m.pNext
+	con := "parser.next: the token returned for a concatenation is the one fetched first"
+	if fn == nil {
+		return []Obligation{undecided(R, con, "-", "(*parser).next not found")}
+	}
+	// the fetches of a token: calls that answer with a *token
+	isFetch := func(v ssa.Value) (*ssa.Call, bool) {
+		call, isC := v.(*ssa.Call)
+		if !isC {
+			return nil, false
+		}
+		pt, isP := call.Type().(*types.Pointer)
+		return call, isP && namedOf(pt.Elem()) == m.tokenT
+	}
+	// where a returned token comes from: followed through phis, through cells of the function (a variable a closure
+	// captures) and through a private closure that hands back such a cell
+	var sources func(v ssa.Value, depth int, out map[*ssa.Call]bool)
+	cellSources := func(cell *ssa.Alloc, depth int, out map[*ssa.Call]bool) {
+		for _, r := range refsOf(cell) {
+			if st, isS := r.(*ssa.Store); isS && st.Addr == ssa.Value(cell) {
+				sources(st.Val, depth+1, out)
+			}
+		}
+	}
+	seenV := map[ssa.Value]bool{}
+	sources = func(v ssa.Value, depth int, out map[*ssa.Call]bool) {
+		if depth > 8 || seenV[v] {
+			return
+		}
+		seenV[v] = true
+		switch x := v.(type) {
+		case *ssa.Phi:
+			for _, e := range x.Edges {
+				sources(e, depth+1, out)
+			}
+		case *ssa.UnOp:
+			if cell, isA := x.X.(*ssa.Alloc); isA {
+				cellSources(cell, depth, out)
+			}
+		case *ssa.Call:
+			cal := x.Call.StaticCallee()
+			if cal != nil && cal.Parent() == fn && cal.Blocks != nil {
+				// a closure of the function: what it returns
+				if mc, isMC := x.Call.Value.(*ssa.MakeClosure); isMC {
+					for _, bb := range cal.Blocks {
+						if rt, isR := bb.Instrs[len(bb.Instrs)-1].(*ssa.Return); isR && len(rt.Results) == 1 {
+							if ld, isL := rt.Results[0].(*ssa.UnOp); isL {
+								if fv, isFV := ld.X.(*ssa.FreeVar); isFV {
+									for i, f := range cal.FreeVars {
+										if f == fv && i < len(mc.Bindings) {
+											if cell, isA := mc.Bindings[i].(*ssa.Alloc); isA {
+												cellSources(cell, depth, out)
+											}
+										}
+									}
+									continue
+								}
+							}
+							// the closure fetches a token itself: its call is the fetch
+							out[x] = true
+						}
+					}
+					return
+				}
+			}
+			if c2, isF := isFetch(x); isF {
+				out[c2] = true
+			}
+		}
+	}
+	n, badAt := 0, ""
+	for _, b := range fn.Blocks {
+		rt, isR := b.Instrs[len(b.Instrs)-1].(*ssa.Return)
+		if !isR || len(rt.Results) != 1 {
+			continue
+		}
+		// only returns that can follow a fetch inside a loop (the concatenation path)
+		after := false
+		for _, b2 := range fn.Blocks {
+			if loopHeaderOf(b2) != nil && (b2 == b || blockReaches(b2, b, nil)) {
+				after = true
+			}
+		}
+		if !after {
+			continue
+		}
+		n++
+		seenV = map[ssa.Value]bool{}
+		out := map[*ssa.Call]bool{}
+		sources(resolveSpill(rt.Results[0], rt), 0, out)
+		for call := range out {
+			// a fetch made inside the loop, or one that the loop can reach again, is a later part
+			if loopHeaderOf(call.Block()) != nil {
+				badAt = c.InstrPos(rt)
+			}
+		}
+		if len(out) == 0 {
+			badAt = ""
+			n--
+		}
+	}
+	switch {
+	case n == 0:
+		return []Obligation{undecided(R, con, c.Pos(fn.Pos()), "no return follows a fetch inside a loop: the concatenation is not joined here in a shape this rule reads")}
+	case badAt != "":
+		return []Obligation{bad(R, con, badAt, "a token fetched inside the concatenation loop is what is returned: the statement's argument (and an error about it) is positioned at its last part — `leaf a \"one \" + 'two '` + a third part on the next line reports the next line")}
+	}
+	return []Obligation{ok(R, con, c.Pos(fn.Pos()), fmt.Sprintf("%d returns after the loop's fetches, each of the token fetched in front of the loop", n))}
+}
